@@ -1,4 +1,4 @@
-use crate::internals::stream_controller::*;
+use crate::internals::{function_wrapper::*, stream_controller::*};
 use crate::prelude::*;
 
 #[derive(Clone)]
@@ -6,7 +6,9 @@ pub struct Tap<'a, Item>
 where
   Item: Clone + Send + Sync,
 {
-  tap_observer: Observer<'a, Item>,
+  tap_next: FunctionWrapper<'a, Item, ()>,
+  tap_error: FunctionWrapper<'a, RxError, ()>,
+  tap_complete: FunctionWrapper<'a, (), ()>,
 }
 
 impl<'a, Item> Tap<'a, Item>
@@ -23,13 +25,19 @@ where
     Error: Fn(RxError) + Send + Sync + 'a,
     Complete: Fn() + Send + Sync + 'a,
   {
+    // plain callbacks, not an Observer: an Observer is used up by its first
+    // terminal, so only the first subscription would see error/complete
     Tap {
-      tap_observer: Observer::new(next, error, complete),
+      tap_next: FunctionWrapper::new(next),
+      tap_error: FunctionWrapper::new(error),
+      tap_complete: FunctionWrapper::new(move |_| complete()),
     }
   }
 
   pub fn execute(&self, source: Observable<'a, Item>) -> Observable<'a, Item> {
-    let tap_observer = self.tap_observer.clone();
+    let tap_next = self.tap_next.clone();
+    let tap_error = self.tap_error.clone();
+    let tap_complete = self.tap_complete.clone();
     Observable::create(move |s| {
       let sctl = StreamController::new(s);
       let source_next = source.clone();
@@ -38,20 +46,20 @@ where
       let sctl_error = sctl.clone();
       let sctl_complete = sctl.clone();
 
-      let tap_observer_next = tap_observer.clone();
-      let tap_observer_error = tap_observer.clone();
-      let tap_observer_complete = tap_observer.clone();
+      let tap_observer_next = tap_next.clone();
+      let tap_observer_error = tap_error.clone();
+      let tap_observer_complete = tap_complete.clone();
       source_next.inner_subscribe(sctl.new_observer(
         move |_, x: Item| {
-          tap_observer_next.next(x.clone());
+          tap_observer_next.call(x.clone());
           sctl_next.sink_next(x);
         },
         move |_, e| {
-          tap_observer_error.error(e.clone());
+          tap_observer_error.call(e.clone());
           sctl_error.sink_error(e);
         },
         move |serial| {
-          tap_observer_complete.complete();
+          tap_observer_complete.call(());
           sctl_complete.sink_complete(&serial)
         },
       ));
